@@ -11,6 +11,7 @@
 #include <cstring>
 #include <functional>
 #include <limits>
+#include <list>
 
 using namespace verif;
 using namespace BaseGraph;
@@ -409,6 +410,30 @@ void runInner(const Case &c, verif_result *out) {
             }
         } else {
             buildGraph(s, wmode, g, m);
+        }
+        // two features one after the other: the searched object is a copy (1), a rebuild through the container
+        // constructor from the edges and weights the graph holds (2), or the target of a move (3)
+        if (long long via = c.geti("via", 0)) {
+            if (via == 1) {
+                G h(g);
+                g = G(0);
+                g = h;
+            } else if (via == 2) {
+                std::vector<LabeledEdge<EdgeWeight>> v;
+                for (auto &p : m.e)
+                    v.emplace_back(p.first.first, p.first.second, p.second.w);
+                if (m.e.size() % 2) {
+                    std::list<LabeledEdge<EdgeWeight>> l(v.rbegin(), v.rend());
+                    g = G(l);
+                } else
+                    g = G(v);
+                g.resize(m.n);
+            } else {
+                G h(std::move(g));
+                g = G(1);
+                g = std::move(h);
+            }
+            facts.tag("searched_object_via_" + std::string(via == 1 ? "copy" : via == 2 ? "container_constructor" : "move"));
         }
         if (m.n <= 12)
             r = verifyBuilt(g, m, observer, nullptr, exact);
